@@ -148,7 +148,9 @@ def main():
         for m, fu in futs:
             r = fu.result()
             (f, i, kind, old, new) = m
-            rec = {'file': f, 'line': i + 1, 'op': kind, 'old': old.strip(), 'new': (new or '').strip(), **r}
+            src_lines = open(os.path.join(REPO, f)).read().split('\n')
+            occ = sum(1 for ln in src_lines[:i] if ln.strip() == old.strip())
+            rec = {'file': f, 'line': i + 1, 'op': kind, 'old': old.strip(), 'occ': occ, 'new': (new or '').strip(), **r}
             res.append(rec)
             tag = {'no-compile': 'nocompile', 'engine-failed': 'ENGINE'}.get(r['status'], 'KILLED' if (r.get('rules') or r.get('missing')) else 'alive')
             print('%-9s %s:%d %-8s %s   %s' % (tag, f, i + 1, kind, old.strip()[:70], ','.join(r.get('rules', []) + ['?' + x for x in r.get('missing', [])])), flush=True)
